@@ -46,7 +46,11 @@ class Unit:
             if kind == "fn":
                 contract = it.get("contract", "")
                 loops = it.get("loops", {})
-                text, m = splice_fn(s, it["name"], it.get("impl"), contract, loops)
+                text, m = splice_fn(s, it["name"], it.get("impl"), contract, loops, ret_name=it.get("ret_name"))
+                if it.get("ret_name"):
+                    note = "return value named in the signature: `-> T` written as `-> (%s: T)` (signature only, body untouched)" % it["ret_name"]
+                    if note not in meta["dropped"]:
+                        meta["dropped"].append(note)
                 if it.get("strip_pub"):
                     text = re.sub(r"^pub\s+", "", text)
                 wrap = it.get("impl_as")
@@ -100,7 +104,7 @@ class Unit:
             else:
                 body.append("pub mod %s {\n#[allow(unused_imports)] use super::*;\n%s\n}\n#[allow(unused_imports)] use %s::*;" %
                             (module, "\n\n".join(mods[module]), module))
-        text = ("#![feature(allocator_api)]\n#![allow(unused_imports, unused_variables, dead_code, unused_mut, unused_assignments, non_snake_case)]\n"
+        text = ("#![feature(allocator_api, sized_hierarchy)]\n#![allow(unused_imports, unused_variables, dead_code, unused_mut, unused_assignments, non_snake_case)]\n"
                 "use vstd::prelude::*;\nverus! {\n" + prelude + "\n\n" + "\n\n".join(body) + "\n} // verus!\nfn main() {}\n")
         if mutate:
             text = mutate(text)
@@ -142,6 +146,11 @@ def run_verus(path, timeout=300, extra=None):
         for fb in mt.get("function-breakdown", []) or []:
             funcs.append({"function": fb.get("function"), "ok": fb.get("success"), "ms": fb.get("time"), "rlimit": fb.get("rlimit")})
     res["functions"] = funcs
+    if re.search(r"^error\[E\d+\]", err, flags=re.M):
+        res["status"] = "UNDECIDED"
+        m = re.search(r"^error\[E\d+\][^\n]*\n(?:[^\n]*\n){0,6}", err, flags=re.M)
+        res["reason"] = "rustc error in the assembled unit (renamed/lost item or unsupported construct), not a proof failure: " + m.group(0).strip()[:600]
+        return res
     if vr.get("encountered-vir-error"):
         res["status"] = "UNDECIDED"
         m = re.search(r"error[^\n]*\n(?:[^\n]*\n){0,6}", err)
